@@ -97,3 +97,38 @@ func HarnessC20AnonFlatten() {
 	chk("update")
 	zzverif.Reached("c20-anon-end")
 }
+
+// HarnessC20BlankConcurrent: two overlapping SetSource calls on one Blank, one with a plain
+// source and one with a watching source. Once the watching source has been accepted it owns the
+// slot: the view shows its value, whichever call finished last, and no plain source replaces it.
+func HarnessC20BlankConcurrent() {
+	b := &Blank{}
+	ctx, cancel := context.WithCancel(context.Background())
+	defer cancel()
+	def := c20cfg{A: 1}
+	d, err := dials.Config(ctx, &def, b)
+	zzverif.Assert(err == nil, "C20 Config failed with an empty Blank")
+	if err != nil {
+		return
+	}
+	w := &c20plainWatcher{c20plain: c20plain{a: 20}}
+	var errP error
+	done := make(chan struct{})
+	go func() {
+		defer close(done)
+		errP = b.SetSource(ctx, &c20plain{a: 10})
+	}()
+	errW := b.SetSource(ctx, w)
+	<-done
+	zzverif.Assert(errW == nil, "C20 SetSource of a watching source failed although no watching source was installed before")
+	if errW == nil {
+		zzverif.Assert(w.watched, "C20 SetSource of a watching source did not call Watch")
+		zzverif.Assert(d.View().A == 20, "C20 a plain source replaced the watching inner source (the view does not show the watcher's value)")
+		if errP != nil {
+			zzverif.Assert(d.View().A == 20, "C20 a refused SetSource changed the view")
+		}
+		e3 := b.SetSource(ctx, &c20plain{a: 30})
+		zzverif.Assert(e3 != nil && d.View().A == 20, "C20 Blank replaced a watching inner source")
+	}
+	zzverif.Reached("c20-blank-conc-end")
+}
